@@ -1,5 +1,6 @@
 import Model.Network
 import Proofs.VJP
+import Proofs.SkipWalk
 
 /-!
 # C16 — skip connections combine source and target inputs as configured
@@ -251,5 +252,91 @@ theorem additive_skip_gradient_is_derivative {n m k : ℕ} (head : Net n m) (mid
         tail.bwd (mid.fwd (head.fwd x) + head.fwd x) g) j) (x j) := by
   have hv := Net.vjp_with_skip head mid tail x h1 h2 h3
   exact (IsGrad.comp_vjp hv hg).partial j
+
+/-! ### … and on the model's own `Network.forward` / `Network.backward` folds -/
+
+open LayerChain SkipWalk VJP in
+/-- **a network with one additive skip connection, any layer kinds** (`head`, then `mid` whose first layer is the
+    skip's source, then `tail` whose first layer is the skip's target; every layer a link of the chain theorem:
+    dense, convolution, deconvolution, max-pool, dense feedback block): on the model's own folds `Network.forward`
+    makes the target process `mid(head x) + head x`, and the last gradient `Network.backward` hands on — computed
+    with the source→targets table, the processed-input gradients and the `+=` at the source — is the gradient of
+    the objective with respect to the network input -/
+theorem additive_skip_network_gradient {a m b d c : Idx} {ea : Enc a} (em : Enc m) {eb : Enc b} {ed : Enc d} {ec : Enc c}
+    (head : Chain a ea m em)
+    (lm : Layer ℝ) (fm : V m.T → V b.T) (bm : V m.T → V b.T → V m.T) (prem : V m.T → Tensor ℝ) (rcm : V m.T → Recorded ℝ)
+    (wgm : V m.T → V b.T → WGrad ℝ × BGrad ℝ) (midr : Chain b eb m em)
+    (lt : Layer ℝ) (ft : V m.T → V d.T) (bt : V m.T → V d.T → V m.T) (pret : V m.T → Tensor ℝ) (rct : V m.T → Recorded ℝ)
+    (wgt : V m.T → V d.T → WGrad ℝ × BGrad ℝ) (tailr : Chain d ed c ec)
+    (n : Network ℝ) (hn : IsSkipNet em head lm fm bm prem rcm wgm midr lt ft bt pret rct wgt tailr n)
+    (he : EncAdd em) (x : V a.T)
+    (hrh : Real head x) (hrm : Real (midC em lm fm bm prem rcm wgm midr) ((gnet head).fwd x))
+    (hrt : Real (tailC em lt ft bt pret rct wgt tailr)
+      ((gnet (midC em lm fm bm prem rcm wgm midr)).fwd ((gnet head).fwd x) + (gnet head).fwd x))
+    (hh : (gnet head).Ok x) (hm : (gnet (midC em lm fm bm prem rcm wgm midr)).Ok ((gnet head).fwd x))
+    (ht : (gnet (tailC em lt ft bt pret rct wgt tailr)).Ok
+      ((gnet (midC em lm fm bm prem rcm wgm midr)).fwd ((gnet head).fwd x) + (gnet head).fwd x))
+    (ℓ : V c.T → ℝ) (g : V c.T)
+    (hg : IsGrad ℓ (skipFn em head lm fm bm prem rcm wgm midr lt ft bt pret rct wgt tailr x) g) :
+    ∃ t ws bs gs γ,
+      n.forward (ea x) = .ok t ∧
+      t.act.getLast? = some (ec (skipFn em head lm fm bm prem rcm wgm midr lt ft bt pret rct wgt tailr x)) ∧
+      n.backward (ec g) t = .ok (ws, bs, gs) ∧ gs.getLast? = some (ea γ) ∧
+      IsGrad (ℓ ∘ skipFn em head lm fm bm prem rcm wgm midr lt ft bt pret rct wgt tailr) x γ :=
+  skip_network_gradient em head lm fm bm prem rcm wgm midr lt ft bt pret rct wgt tailr n hn he x hrh hrm hrt hh hm ht ℓ g hg
+
+open LayerChain SkipWalk VJP ChainLinks DenseStack DenseBridge in
+/-- **instance: a perceptron of any depth with an additive skip connection** around any stretch of its layers
+    (`s1`, then `Stack.cons a2 W2 b2 r2` which the skip goes around, then `Stack.cons a3 W3 b3 r3`) -/
+theorem mlp_with_skip_gradient {n0 m m' d k : ℕ} (n : Network ℝ) (s1 : Stack n0 m)
+    (a2 : Act) (W2 : V (Fin m' × Fin m)) (b2 : Vec m') (r2 : Stack m' m)
+    (a3 : Act) (W3 : V (Fin d × Fin m)) (b3 : Vec d) (r3 : Stack d k)
+    (hl : n.layers = s1.layers ++ (Stack.cons a2 W2 b2 r2).layers ++ (Stack.cons a3 W3 b3 r3).layers)
+    (hc : n.connect = [(s1.layers.length + (Stack.cons a2 W2 b2 r2).layers.length, s1.layers.length)])
+    (hacc : n.skipaccumulation = .add) (hlb : n.loopbacks = [])
+    (hv1 : s1.Valid) (hv2 : (Stack.cons a2 W2 b2 r2).Valid) (hv3 : (Stack.cons a3 W3 b3 r3).Valid) (x : Vec n0)
+    (hk1 : s1.NoKinks x) (hk2 : (Stack.cons a2 W2 b2 r2).NoKinks (s1.net.fwd x))
+    (hk3 : (Stack.cons a3 W3 b3 r3).NoKinks ((Stack.cons a2 W2 b2 r2).net.fwd (s1.net.fwd x) + s1.net.fwd x))
+    (ℓ : Vec k → ℝ) (g : Vec k) :
+    let F := fun z : Vec n0 => (Stack.cons a3 W3 b3 r3).net.fwd ((Stack.cons a2 W2 b2 r2).net.fwd (s1.net.fwd z) + s1.net.fwd z)
+    IsGrad ℓ (F x) g →
+    ∃ t ws bs gs γ,
+      n.forward (vecT x) = .ok t ∧ t.act.getLast? = some (vecT (F x)) ∧
+      n.backward (vecT g) t = .ok (ws, bs, gs) ∧ gs.getLast? = some (vecT γ) ∧ IsGrad (ℓ ∘ F) x γ := by
+  intro F hg
+  have hF : ∀ z, skipFn (eVec m) (stackChain s1) (.dense (denseLayer a2 W2 b2)) (denseFn (Act.f a2) W2 b2) (denseBwd a2 W2 b2)
+      (fun x => vecT (densePre W2 b2 x)) (fun _ => .none) (denseWG a2 W2 b2) (stackChain r2)
+      (.dense (denseLayer a3 W3 b3)) (denseFn (Act.f a3) W3 b3) (denseBwd a3 W3 b3)
+      (fun x => vecT (densePre W3 b3 x)) (fun _ => .none) (denseWG a3 W3 b3) (stackChain r3) z = F z := by
+    intro z
+    simp only [skipFn, midC, tailC, gnet, GNet.fwd, stack_gnet_fwd, F, Stack.net, Net.fwd]
+  have hfun : skipFn (eVec m) (stackChain s1) (.dense (denseLayer a2 W2 b2)) (denseFn (Act.f a2) W2 b2) (denseBwd a2 W2 b2)
+      (fun x => vecT (densePre W2 b2 x)) (fun _ => .none) (denseWG a2 W2 b2) (stackChain r2)
+      (.dense (denseLayer a3 W3 b3)) (denseFn (Act.f a3) W3 b3) (denseBwd a3 W3 b3)
+      (fun x => vecT (densePre W3 b3 x)) (fun _ => .none) (denseWG a3 W3 b3) (stackChain r3) = F := funext hF
+  have hy : (gnet (stackChain s1)).fwd x = s1.net.fwd x := stack_gnet_fwd s1 x
+  have hmid : ∀ z, (gnet (midC (eVec m) (.dense (denseLayer a2 W2 b2)) (denseFn (Act.f a2) W2 b2) (denseBwd a2 W2 b2)
+      (fun x => vecT (densePre W2 b2 x)) (fun _ => .none) (denseWG a2 W2 b2) (stackChain r2))).fwd z =
+      (Stack.cons a2 W2 b2 r2).net.fwd z := fun z => stack_gnet_fwd (Stack.cons a2 W2 b2 r2) z
+  have hnet : IsSkipNet (eVec m) (stackChain s1) (.dense (denseLayer a2 W2 b2)) (denseFn (Act.f a2) W2 b2) (denseBwd a2 W2 b2)
+      (fun x => vecT (densePre W2 b2 x)) (fun _ => .none) (denseWG a2 W2 b2) (stackChain r2)
+      (.dense (denseLayer a3 W3 b3)) (denseFn (Act.f a3) W3 b3) (denseBwd a3 W3 b3)
+      (fun x => vecT (densePre W3 b3 x)) (fun _ => .none) (denseWG a3 W3 b3) (stackChain r3) n := by
+    refine ⟨?_, ?_, hacc, hlb⟩
+    · rw [hl]; simp [LayerChain.layers, stackChain_layers, Stack.layers]
+    · rw [hc]; simp [LayerChain.layers, stackChain_layers, Stack.layers]
+  have := skip_network_gradient (eVec m) (stackChain s1) (.dense (denseLayer a2 W2 b2)) (denseFn (Act.f a2) W2 b2) (denseBwd a2 W2 b2)
+      (fun x => vecT (densePre W2 b2 x)) (fun _ => .none) (denseWG a2 W2 b2) (stackChain r2)
+      (.dense (denseLayer a3 W3 b3)) (denseFn (Act.f a3) W3 b3) (denseBwd a3 W3 b3)
+      (fun x => vecT (densePre W3 b3 x)) (fun _ => .none) (denseWG a3 W3 b3) (stackChain r3) n hnet (encAdd_vec m) x
+      (stackChain_real s1 x hv1)
+      (by rw [hy]; exact stackChain_real (Stack.cons a2 W2 b2 r2) _ hv2)
+      (by rw [hmid, hy]; exact stackChain_real (Stack.cons a3 W3 b3 r3) _ hv3)
+      (stackChain_ok s1 x hv1 hk1)
+      (by rw [hy]; exact stackChain_ok (Stack.cons a2 W2 b2 r2) _ hv2 hk2)
+      (by rw [hmid, hy]; exact stackChain_ok (Stack.cons a3 W3 b3 r3) _ hv3 hk3)
+      ℓ g (by rw [hF]; exact hg)
+  rw [hfun] at this
+  exact this
 
 end C16
